@@ -498,7 +498,7 @@ pub fn record(args: &[String]) -> i32 {
     for i in 0..count {
         if i % 12 == 5 {
             // targeted families that a random writer meets too rarely (one of four, in turn)
-            let fam = (i / 12) % 7;
+            let fam = (i / 12) % 8;
             let root = g.ncname();
             let e = g.ncname();
             let an = g.ncname();
@@ -573,6 +573,26 @@ pub fn record(args: &[String]) -> i32 {
                     let lex = if g.r.gen_bool(0.7) { "mismatch" } else { "ok" };
                     toks.push(json!({"k": "xmldecl", "ver": cp(&[49, 46, 48]), "enc": cp(&[]), "sa": "none", "lex": lex}));
                     toks.push(json!({"k": "stag", "n": cp(&root), "attrs": [], "lex": "ok"}));
+                    toks.push(json!({"k": "etag", "n": cp(&root)}));
+                }
+                7 => {
+                    // the same attribute name twice in one tag, next to each other or with another attribute in between
+                    name = "dup-attr";
+                    let other = g.ncname();
+                    let a1 = json!({"n": cp(&an), "v": [{"t": "c", "c": 49}]});
+                    let a2 = json!({"n": cp(&an), "v": [{"t": "c", "c": 51}]});
+                    let mid = json!({"n": cp(&other), "v": [{"t": "c", "c": 50}]});
+                    let attrs = match g.r.gen_range(0..4) {
+                        0 => json!([a1, a2]),
+                        1 => json!([a1, mid, a2]),
+                        2 => json!([mid, a1, a2]),
+                        _ => json!([a1, mid]),
+                    };
+                    if other == an {
+                        toks.push(json!({"k": "stag", "n": cp(&root), "attrs": [], "lex": "ok"}));
+                    } else {
+                        toks.push(json!({"k": "stag", "n": cp(&root), "attrs": attrs, "lex": "ok"}));
+                    }
                     toks.push(json!({"k": "etag", "n": cp(&root)}));
                 }
                 6 => {
